@@ -19,6 +19,12 @@ COQ_TARGETS = ['props/C12.vo', 'drv/QueueRank.vo']
 def monitor(case):
     """Property C12 on what the real driver did; None or a description.
     Sound: flags only behaviour the property forbids."""
+    if case.get('term_early'):
+        return ('Driver.Terminate returned while an engine goroutine was still in the event loop (at %s) after %d granted '
+                'steps: the caller tears down tracers and recorders that the rest of that event still uses'
+                % (case['term_early'], len(case.get('steps', []))))
+    if case.get('term_stuck'):
+        return 'Driver.Terminate did not return although every thread had finished (%d granted steps)' % len(case.get('steps', []))
     if case.get('crashed') and not case.get('hung'):
         late = monitor(dict(case, crashed=False))
         return late or ('the driver panicked after %d granted steps (runEngine recovered the panic and called atexit.Exit)'
@@ -66,7 +72,8 @@ def monitor(case):
 
 def strip(case):
     return {'name': case.get('name', ''), 'nq': case['nq'], 'progs': case['progs'],
-            'grants': case.get('grants') or [], 'policy': 'first', 'probe': bool(case.get('probe'))}
+            'grants': case.get('grants') or [], 'policy': 'first', 'probe': bool(case.get('probe')),
+            'term': bool(case.get('term'))}
 
 
 def nontrivial(case):
@@ -246,6 +253,7 @@ def main(argv):
         'gpu_events_handled': sum(1 for c in cases for s in c['steps'] if s.get('at') == 'gpu:event'),
         'early_sends_blocked': sum(1 for c in cases for s in c['steps'] if s.get('at') == 'drain:signal' and not s['chain']),
         'cases_with_hold': sum(1 for c in cases if c.get('hold')),
+        'cases_with_terminate': sum(1 for c in cases if c.get('term')),
         'model_mismatches': len(mism), 'monitor_failures': len(bad), 'unexpected_blocking': len(odd),
         'rank_checked_transitions': nmodel, 'rank_violations': len(rankbad),
         'stress': [{k: r[k] for k in ('workers', 'mode', 'iterations', 'seconds', 'hung')} for r in stress],
